@@ -86,6 +86,12 @@ def labelsAfter : List LItem → List Nat
     if root.name == Gen.op_jump && (labelsRun r).contains l then labelsAfter r else []
   | _ => []
 
+/-- a regular Jump that just goes to a label right after it is dropped -/
+def jumpRemoved (root : Op) (l : Option Nat) (r : List LItem) : Bool :=
+  root.name == Gen.op_jump && (match l with
+    | some t => (labelsAfter r).contains t
+    | none => false)
+
 structure FinSt where
   /-- `labels_waiting` (ids) -/
   waiting : List Nat
@@ -103,10 +109,7 @@ def finRoutine : List LItem → FinSt → List LItem × FinSt
     let (out, st') := finRoutine r { st with waiting := st.waiting ++ [id] }
     (.label id nm :: out, st')
   | .ljump root l :: r, st =>
-    let removed := root.name == Gen.op_jump && (match l with
-      | some t => (labelsAfter r).contains t
-      | none => false)
-    if removed then finRoutine r st
+    if jumpRemoved root l r then finRoutine r st
     else
       let (out, st') := finRoutine r ⟨[], setAll st.offsets st.waiting root.offset⟩
       (.ljump root l :: out, st')
@@ -183,13 +186,14 @@ def trailingNeedOp (ops : List LItem) : Bool :=
       | .ljump root (some l) => root.name != Gen.op_jump && tl.any (·.1 == l)
       | _ => false
 
+/-- the counter ticks of the visiting phase; returns the label counter before it -/
+def visitTicks (nl no : Nat) : M Nat := fun s => .ok (s.lbc, (s.tickedLbl nl).tickedOp no)
+
 /-- visit all statements of a func_suite, then `collect_ops(terminate_trailing_labels)` -/
 def compileBody (ms : Macros) (terminate : Bool) (body : Stmts) : M (List LItem) := do
   if vbadStmts body then fail .ssbCompilerError
   else
-    let s ← get
-    let lb := s.lbc
-    set ((s.tickedLbl (vlStmts body)).tickedOp (voStmts body))
+    let lb ← visitTicks (vlStmts body) (voStmts body)
     let ops ← cStmts ms lb body
     if terminate && trailingNeedOp ops then
       let o ← genOp Gen.op_dummy_end []
